@@ -5,6 +5,7 @@ import (
 	"fmt"
 	"os"
 	"path/filepath"
+	"runtime"
 	"strings"
 
 	"github.com/avfs/avfs"
@@ -88,10 +89,7 @@ func (d *driver) replayObject(f *finding) replayObj {
 		r.Kind = "iter"
 	}
 
-	r.Reference = "path/filepath of the host toolchain"
-	if o.win {
-		r.Reference = "verif/ref/winpath (Windows sources of the toolchain, retargeted)"
-	}
+	r.Reference = referenceName(o)
 
 	if len(f.ex) > 0 {
 		r.GoTest = goTest(o, f, f.ex[0])
@@ -101,30 +99,51 @@ func (d *driver) replayObject(f *finding) replayObj {
 }
 
 // goTest renders a plain Go test reproducing the first example against /repo
-// (go test -tags avfs_setostype), without any verification machinery.
+// (go test -tags avfs_setostype ./vfs/memfs), without any verification
+// machinery; the expected value is the reference's answer, inlined.
 func goTest(o *osCtx, f *finding, e example) string {
-	var call string
+	var body string
+
+	call := fmt.Sprintf("vfs.%s(%s)", fnName[f.fn], quoteArgs(e.Args))
 
 	switch f.fn {
+	case fClean, fDir, fBase, fFromSlash, fToSlash, fJoin0, fJoin1, fJoin2, fJoin3, fVolumeName:
+		if f.fn == fVolumeName {
+			call = fmt.Sprintf("avfs.VolumeName(vfs, %q)", e.Args[0])
+		}
+
+		body = fmt.Sprintf("if got, want := %s, %s; got != want {\n\t\tt.Errorf(\"got %%q, want %%q\", got, want)\n\t}", call, e.Want)
+	case fIsAbs:
+		body = fmt.Sprintf("if got, want := %s, %s; got != want {\n\t\tt.Errorf(\"got %%v, want %%v\", got, want)\n\t}", call, e.Want)
+	case fSplit:
+		body = fmt.Sprintf("dir, file := %s\n\tif want := [2]string{%s}; dir != want[0] || file != want[1] {\n\t\tt.Errorf(\"got %%q %%q, want %%q\", dir, file, want)\n\t}", call, e.Want)
+	case fRel, fAbs:
+		pre := ""
+		if f.fn == fAbs {
+			pre = fmt.Sprintf("_ = vfs.MkdirAll(%q, 0o755)\n\t_ = vfs.Chdir(%q)\n\t", e.Cwd, e.Cwd)
+		}
+
+		if e.Want == "error" {
+			body = fmt.Sprintf("%sif got, err := %s; err == nil {\n\t\tt.Errorf(\"got %%q, want an error\", got)\n\t}", pre, call)
+		} else {
+			body = fmt.Sprintf("%sif got, err := %s; err != nil || got != %s {\n\t\tt.Errorf(\"got %%q %%v, want %%q\", got, err, %s)\n\t}", pre, call, e.Want, e.Want)
+		}
+	case fMatch:
+		body = fmt.Sprintf("m, err := %s\n\tgot := map[bool]string{true: \"true\", false: \"false\"}[m]\n\tif err != nil {\n\t\tgot = \"error-other\"\n\t\tif errors.Is(err, filepath.ErrBadPattern) {\n\t\t\tgot = \"ErrBadPattern\"\n\t\t}\n\t}\n\tif got != %q {\n\t\tt.Errorf(\"got %%s, want %s\", got)\n\t}", call, e.Want, e.Want)
 	case fFromUnixPath:
-		call = fmt.Sprintf("avfs.FromUnixPath(vfs, %q)", e.Args[0])
+		body = fmt.Sprintf("t.Log(avfs.FromUnixPath(vfs, %q)) // must not panic", e.Args[0])
 	case fSplitAbs:
-		call = fmt.Sprintf("avfs.SplitAbs(vfs, %q)", e.Args[0])
-	case fVolumeName:
-		call = fmt.Sprintf("avfs.VolumeName(vfs, %q)", e.Args[0])
+		body = fmt.Sprintf("t.Log(avfs.SplitAbs(vfs, %q)) // must not panic", e.Args[0])
 	case fIterParts:
-		call = fmt.Sprintf("pi := avfs.NewPathIterator(vfs, %q); for pi.Next() { t.Log(pi.Part()) }", e.Args[0])
+		body = fmt.Sprintf("pi := avfs.NewPathIterator(vfs, %q)\n\tfor pi.Next() {\n\t\tt.Logf(\"%%q + %%q + %%q\", pi.Left(), pi.Part(), pi.Right())\n\t}\n\t// want: %s; got: %s", e.Args[0], e.Want, e.Got)
 	case fIterReplace:
-		call = fmt.Sprintf("pi := avfs.NewPathIterator(vfs, %q); for i := 0; i <= %d; i++ { pi.Next() }; reset := pi.ReplacePart(%q); t.Log(reset, pi.Path())",
-			e.Args[0], e.Step, e.Args[1])
-	case fAbs:
-		call = fmt.Sprintf("_ = vfs.MkdirAll(%q, 0o755); _ = vfs.Chdir(%q); got, err := vfs.Abs(%q); t.Log(got, err)", e.Cwd, e.Cwd, e.Args[0])
-	default:
-		call = fmt.Sprintf("t.Log(vfs.%s(%s))", fnName[f.fn], quoteArgs(e.Args))
+		body = fmt.Sprintf("pi := avfs.NewPathIterator(vfs, %q)\n\tfor i := 0; i <= %d; i++ {\n\t\tpi.Next()\n\t}\n\treset := pi.ReplacePart(%q)\n\tt.Logf(\"reset=%%v path=%%q\", reset, pi.Path())\n\tfor pi.Next() {\n\t\tt.Logf(\"part %%q\", pi.Part())\n\t}\n\t// want: %s; got: %s",
+			e.Args[0], e.Step, e.Args[1], e.Want, e.Got)
 	}
 
-	if f.fn == fFromUnixPath || f.fn == fSplitAbs || f.fn == fVolumeName {
-		call = "t.Log(" + call + ")"
+	imports := "\t\"testing\"\n\n\t\"github.com/avfs/avfs\"\n\t\"github.com/avfs/avfs/vfs/memfs\"\n"
+	if f.fn == fMatch {
+		imports = "\t\"errors\"\n\t\"path/filepath\"\n" + imports
 	}
 
 	return fmt.Sprintf(`//go:build avfs_setostype
@@ -132,19 +151,23 @@ func goTest(o *osCtx, f *finding, e example) string {
 package memfs_test
 
 import (
-	"testing"
+%s)
 
-	"github.com/avfs/avfs"
-	"github.com/avfs/avfs/vfs/memfs"
-)
-
-// %s on %s: want %s, got %s
+// %s on a %s-typed MemFS; expected value: %s.
 func TestC13Replay(t *testing.T) {
 	vfs := memfs.NewWithOptions(&memfs.Options{OSType: avfs.Os%s})
-	_ = avfs.OsLinux
+
 	%s
 }
-`, fnName[f.fn], o.name, e.Want, e.Got, o.name, call)
+`, imports, fnName[f.fn], o.name, referenceName(o), o.name, body)
+}
+
+func referenceName(o *osCtx) string {
+	if o.win {
+		return "path/filepath of " + runtime.Version() + " for GOOS=windows (verif/ref/winpath)"
+	}
+
+	return "path/filepath of " + runtime.Version() + " on the host"
 }
 
 // replay re-executes the examples of a replay file; exit code 1 if any still
